@@ -33,6 +33,7 @@ def strategy(tier):
 
 
 def run_case(case, ctx):
+    state = {"creates": 0}
 
     def after(h, info):
         from sedpack.io import Dataset
@@ -75,10 +76,31 @@ def run_case(case, ctx):
             f"{[(s['kind'], s.get('relation'), s.get('dir')) for s in h.sessions]}")
 
     def create_again(h):
+        import os
+        from pathlib import Path
         from sedpack.io import Dataset, Metadata
         before = dsops.tree_digest(h.root)
+        # the existing dataset is named through different spellings
+        n = state["creates"]
+        state["creates"] += 1
+        spelling = ("abs", "rel", "tilde", "str-abs", "rel-dotted")[n % 5]
+        old_cwd, old_home = os.getcwd(), os.environ.get("HOME")
+        if spelling == "abs":
+            target = h.root
+        elif spelling == "str-abs":
+            target = str(h.root)
+        elif spelling == "rel":
+            os.chdir(h.root.parent)
+            target = Path(h.root.name)
+        elif spelling == "rel-dotted":
+            os.chdir(h.root)
+            target = Path("../" + h.root.name + "/.")
+        else:
+            os.environ["HOME"] = str(h.root.parent)
+            target = "~/" + h.root.name
+        ctx.label("create_again:" + spelling)
         try:
-            Dataset.create(path=h.root,
+            Dataset.create(path=target,
                            metadata=Metadata(description="again"),
                            dataset_structure=dsops.make_structure(h.desc))
         except FileExistsError:
@@ -87,11 +109,19 @@ def run_case(case, ctx):
             # any error is a refusal; the tree must still be unchanged
             ctx.label("create_again:refused-other:" + type(exc).__name__)
         else:
-            ctx.fail("create-refused", ("create-not-refused",),
-                     "Dataset.create on an existing dataset returned normally")
+            ctx.fail("create-refused", ("create-not-refused", spelling),
+                     f"Dataset.create on an existing dataset (path spelled "
+                     f"{target!r}) returned normally")
+        finally:
+            os.chdir(old_cwd)
+            if old_home is None:
+                os.environ.pop("HOME", None)
+            else:
+                os.environ["HOME"] = old_home
         if dsops.tree_digest(h.root) != before:
-            ctx.fail("create-refused", ("create-changed-files",),
-                     "Dataset.create on an existing dataset changed files")
+            ctx.fail("create-refused", ("create-changed-files", spelling),
+                     f"Dataset.create on an existing dataset (path spelled "
+                     f"{target!r}) changed files")
         ctx.count("create_again")
 
     h = hist_common.run_history(case,
